@@ -138,6 +138,18 @@ def main():
 def report(prop, tier, seed, mod, results, native, wall):
     findings = load_findings()
     crashed = [r for r in results if r['crashed']]
+    # vacuity guard on the number of obligations: a contract item that generates fewer obligations than on the pinned
+    # tree (committed baseline) has lost paths -- undecided, never silently "proved"
+    per_item = {r['item']: len([o for o in r['obligations'] if o['kind'] in ('proof', 'bounded')]) for r in results}
+    try:
+        base = json.load(open(os.path.join(VERIF, 'contracts', 'baseline_counts.json'))).get(prop, {})
+    except Exception:
+        base = {}
+    for r in results:
+        want = base.get(r['item'])
+        if want is not None and per_item[r['item']] < want and not r['crashed']:
+            r['undecided'].append(dict(fn=r['item'], reason='VACUOUS: %d obligations generated, %d on the pinned tree' %
+                                       (per_item[r['item']], want)))
     obls = [o for r in results for o in r['obligations']]
     proof = [o for o in obls if o['kind'] == 'proof']
     covers = [o for o in obls if o['kind'] == 'cover']
@@ -242,6 +254,7 @@ def report(prop, tier, seed, mod, results, native, wall):
                      symbolic_bounded_notes=sorted({n for r in results for n in r.get('bounded_notes', [])})),
         known_findings=known_lines,
         samples=samples,
+        obligations_per_item=per_item,
         source_files_read={k: v for r in results for k, v in r['read'].items()},
     )
     if level == 'other':
